@@ -1,15 +1,24 @@
 /*@UNIT
 {
-  "property": "C17",
-  "unit": "tls13_chacha_encrypt",
-  "function": "csChacha20Poly1305IetfEncryptTls13",
-  "source": "matrixssl/tls13CipherSuite.c",
-  "keep_bodies": ["tls13MakeWriteNonce", "tls13MakeEncryptAad", "psAesIncrSec"],
-  "assumed": ["psChacha20Poly1305IetfEncrypt (model: records nonce, AAD, length in ghosts)"],
-  "mode": "proof",
-  "why_proof": "all loops have constant bounds (8, 12), fully unwound with unwinding assertions",
-  "unwind": 14,
-  "native_replay": true
+ "property": "C17",
+ "unit": "tls13_chacha_encrypt",
+ "function": "csChacha20Poly1305IetfEncryptTls13",
+ "source": "matrixssl/tls13CipherSuite.c",
+ "keep_bodies": [
+  "tls13MakeWriteNonce",
+  "tls13MakeEncryptAad",
+  "psAesIncrSec"
+ ],
+ "assumed": [
+  "psChacha20Poly1305IetfEncrypt (model: records nonce, AAD, length in ghosts)"
+ ],
+ "mode": "proof",
+ "why_proof": "all loops have constant bounds (8, 12), fully unwound with unwinding assertions",
+ "unwind": 14,
+ "native_replay": true,
+ "properties": [
+  "C10"
+ ]
 }
 @*/
 /* C17.U1 / C10  TLS 1.3 ChaCha20-Poly1305 record sealing (RFC 8446 5.2, 5.3):
